@@ -25,13 +25,18 @@ def biteq(a, b):
     return a.shape == b.shape and a.dtype == b.dtype and a.tobytes() == b.tobytes()
 
 
-def bh(ctx, Y, Yr, br, method, case=None, restore=True):
+def bh(ctx, Y, Yr, br, method, case=None, restore=True, calc_unc=False, nb=None):
     """ssi.build_hank(...)[0] with the oracle clause that goes with EVERY call: build_hank is a function of its
     arguments, so the caller's records (float64) are bit-identical afterwards.  With restore=True altered records are
     put back so that the other clauses judge the intended data."""
     y0 = Y.copy()
     r0 = None if Yr is Y else Yr.copy()
-    H = ssi.build_hank(Y, Yr, br, method)[0]
+    kw = {}
+    if calc_unc:  # the uncertainty branch: only the returned Hankel matrix is judged here (T belongs to C17)
+        kw["calc_unc"] = True
+        if nb is not None:
+            kw["nb"] = nb
+    H = ssi.build_hank(Y, Yr, br, method, **kw)[0]
     changed = []
     if not biteq(Y, y0):
         changed.append("Y")
@@ -57,7 +62,7 @@ def dyad(rng, shape, bits=6):
     return rng.integers(-(2**bits), 2**bits + 1, size=shape) / float(2 ** (bits - 2))
 
 
-def measure(ctx, method, l, r, br, Ndat):
+def measure(ctx, method, l, r, br, Ndat, calc_unc=False, nb=None):
     """Evaluate build_hank on every pair of unit impulses: coefficient tensor c[I,J,a,t1,b,t2]."""
     R, C = (br + 1) * l, (br + 1) * r
     c = np.zeros((R, C, l, Ndat, r, Ndat))
@@ -69,7 +74,7 @@ def measure(ctx, method, l, r, br, Ndat):
                 for t2 in range(Ndat):
                     Yr = np.zeros((r, Ndat))
                     Yr[b, t2] = 1.0
-                    H = bh(ctx, Y, Yr, br, method)
+                    H = bh(ctx, Y, Yr, br, method, calc_unc=calc_unc, nb=nb)
                     if H.shape != (R, C):
                         return None, "shape %s != %s" % (H.shape, (R, C))
                     c[:, :, a, t1, b, t2] = H
@@ -437,7 +442,7 @@ def long_case(ctx, rng, method, Ndat, l, r, br, form, seed, extra=(), tag="long"
                       dict(case, t=int(ts[n]), entry=[i, a, j, b], deviating_t=[int(ts[m]) for m in badn[:20]]))
 
 
-def glue_case(ctx, cls, method, data, ref, br, inst_ok=True, tag="class-glue", ordmax=None):
+def glue_case(ctx, cls, method, data, ref, br, inst_ok=True, tag="class-glue", ordmax=None, calc_unc=False, nb=None):
     """result.H of the algorithm class = Hankel matrix of (all channels, reference channels in the listed order) for the
     br THE USER PASSED, whatever legal ordmax goes with it; the setup's records are not altered; a second run gives the
     same matrix."""
@@ -450,9 +455,14 @@ def glue_case(ctx, cls, method, data, ref, br, inst_ok=True, tag="class-glue", o
     arr = data.copy()
     ss = SingleSetup(arr, fs=10.0)
     kw = dict(br=br, ordmax=ordmax, ref_ind=None if ref is None else list(ref))
+    if calc_unc:
+        kw.update(calc_unc=True, nb=nb)
     alg = cls(name="a", method=method, **kw) if cls is SSIcov else cls(name="a", **kw)
     ss.add_algorithms(alg)
-    case = dict(kind=tag, cls=cls.__name__, method=method, l=l, ref_ind=ref, br=br, ordmax=ordmax, data=data.tolist())
+    case = dict(kind=tag, cls=cls.__name__, method=method, l=l, ref_ind=ref, br=br, ordmax=ordmax, samples=int(data.shape[0]), data=data.tolist())
+    if calc_unc:
+        case.update(calc_unc=True, nb=nb)
+    ctx.hist("glue-orientation", (method, "wide" if data.shape[1] > data.shape[0] else "square" if data.shape[1] == data.shape[0] else "tall"))
     ctx.count(case)
     ctx.hist("glue-ordmax", (br, len(refl), l, ordmax))
     try:
@@ -476,9 +486,14 @@ def glue_case(ctx, cls, method, data, ref, br, inst_ok=True, tag="class-glue", o
     Yc = np.ascontiguousarray(data.T)
     Yrc = np.array(Yc[refl, :], copy=True)
     Hd = bh(ctx, Yc, Yrc, br, method)  # independent arrays: the form that the direct checks pin down
-    if Hc.shape != Hd.shape:
-        ofail(ctx, "C12:glue:%s:shape" % method, "%s(br=%d, ordmax=%d, ref_ind=%s).result.H has shape %s, expected %s = ((br+1)*%d channels, (br+1)*%d references) "
-              "for the br that was passed" % (cls.__name__, br, ordmax, ref, Hc.shape, Hd.shape, l, len(refl)), case)
+    want = ((br + 1) * l, (br + 1) * len(refl))
+    if Hd.shape != want:  # 'dat' with fewer columns than past reference rows (rank-deficient past): outside the oracle contract
+        ctx.not_judged += 1
+        return
+    if Hc.shape != want:
+        ofail(ctx, "C12:glue:%s:shape" % method, "%s(br=%d, ordmax=%d, ref_ind=%s) on a table of %d samples x %d channels: result.H has shape %s, expected %s = "
+              "((br+1)*%d channels, (br+1)*%d references) for the br that was passed"
+              % (cls.__name__, br, ordmax, ref, data.shape[0], l, Hc.shape, want, l, len(refl)), case)
         return
     if method == "dat":
         G, cond = projection_gram(Yc, Yrc, br)
@@ -600,6 +615,82 @@ def multi_case(ctx, clsname, method, datasets, ref_ind, br, ordmax, inst_ok=True
         ctx.note("multi-setup run raised after the Hankel matrices were built (not judged here): %s" % raised)
 
 
+def unc_grid(quick):
+    """(nb, N) with N % nb in {0, 1, nb-1}, N < nb, N == nb and N a multiple of nb."""
+    out = []
+    for nb in (2, 3, 4, 5):
+        for N in sorted({nb - 1, nb, nb + 1, 2 * nb - 1, 2 * nb, 2 * nb + 1, 3 * nb} | (set() if quick else {3 * nb + 1, 4 * nb - 1, 4 * nb})):
+            if N >= 2:
+                out.append((nb, N))
+    return out
+
+
+def unc_case(ctx, rng, l, r, br, Ndat, nb, pending, Y=None, ref=None, basis=True, tag="calc_unc", cache=None):
+    """build_hank(..., 'cov_mm', calc_unc=True, nb): the returned Hankel matrix is the same uniform-weight single-lag
+    matrix as with calc_unc=False - measured on the whole impulse basis (basis=True) and compared on random data with
+    the calc_unc=False matrix, the definition and the exact Coq model.  nb=None = the default (100).  T is not judged."""
+    method = "cov_mm"
+    N = Ndat - 2 * br - 1
+    nbe = 100 if nb is None else nb
+    case0 = dict(kind=tag, method=method, calc_unc=True, nb=nb, l=l, r=r, br=br, Ndat=Ndat, N=N, N_mod_nb=N % nbe, N_div_nb=N // nbe)
+    ctx.hist("calc_unc N%nb", (nbe if nbe < 100 else "default", "N<nb" if N < nbe else "N==nb" if N == nbe else "r=%s" % ("nb-1" if N % nbe == nbe - 1 and nbe > 2 else N % nbe)))
+    inst_ok = True
+    if basis:
+        cu, err = measure(ctx, method, l, r, br, Ndat, calc_unc=True, nb=nb)
+        ctx.count(dict(case0, kind=tag + ":impulse-basis"))
+        if err:
+            ofail(ctx, "C12:cov_mm:calc_unc:shape", "build_hank cov_mm calc_unc=True nb=%s: %s" % (nb, err), case0)
+            return
+        keyc = (l, r, br, Ndat)
+        if cache is not None and keyc in cache:
+            c0 = cache[keyc]
+        else:
+            c0, err0 = measure(ctx, method, l, r, br, Ndat)
+            if cache is not None:
+                cache[keyc] = c0
+        params, bad = structure(cu, method, l, r, br, Ndat)
+        if bad:
+            ofail(ctx, "C12:cov_mm:calc_unc:structure", "build_hank cov_mm calc_unc=True nb=%s (N=%d, N %% nb = %d): %s" % (nb, N, N % nbe, bad["what"]), dict(case0, **bad))
+        if c0 is not None and not np.allclose(cu, c0, rtol=0, atol=1e-12 * np.abs(c0).max()):
+            I, J, a, t1, b, t2 = (int(v) for v in np.unravel_index(np.argmax(np.abs(cu - c0)), cu.shape))
+            ofail(ctx, "C12:cov_mm:calc_unc:weights", "build_hank cov_mm calc_unc=True nb=%s (Ndat=%d, br=%d, N=%d, N %% nb = %d): Hank is not the calc_unc=False matrix: in entry (%d,%d) "
+                  "the product Y[%d,%d]*Yref[%d,%d] has weight %.9g instead of %.9g (weights of that entry: %s)"
+                  % (nb, Ndat, br, N, N % nbe, I, J, a, t1, b, t2, cu[I, J, a, t1, b, t2], c0[I, J, a, t1, b, t2],
+                     [round(float(v), 6) for v in cu[I, J, a, :, b, :][cu[I, J, a, :, b, :] != 0][:8]]),
+                  dict(case0, entry=[I, J], product=[a, t1, b, t2]))
+        if c0 is not None:
+            p0, bad0 = structure(c0, method, l, r, br, Ndat)
+            inst_ok = bad0 is None and all(p0[(i, j)][0] == list(range(br + 1 - j, br + 1 - j + N - 1)) and abs(p0[(i, j)][1] - 1.0 / N) < 1e-12 and p0[(i, j)][3] == 0
+                                           for i in range(br + 1) for j in range(br + 1))
+    else:
+        conv = convention(ctx, method, br)
+        inst_ok = bool(conv) and conv[1]
+    # random data
+    if Y is None:
+        Y = dyad(rng, (l, Ndat))
+        Y[Y == 0] = 0.25
+        if ref is None and r <= l and rng.random() < 0.5:
+            ref = rng.permutation(l)[:r].tolist()
+    Yr = Y[list(ref)] if ref is not None else (dyad(rng, (r, Ndat)) + 0.125)
+    case = dict(case0, ref=ref, Y=Y.tolist() if Y.size <= 600 else "see data", Yref=Yr.tolist() if Yr.size <= 600 else "see data")
+    ctx.count(case)
+    Hu = bh(ctx, Y, Yr, br, method, case, calc_unc=True, nb=nb)
+    Hp = bh(ctx, Y, Yr, br, method, case)
+    what = "calc_unc=True nb=%s (Ndat=%d, br=%d, N=%d, N %% nb = %d)" % (nb, Ndat, br, N, N % nbe)
+    if Hu.shape != Hp.shape or not np.allclose(Hu, Hp, rtol=0, atol=1e-9 * max(1.0, np.abs(Hp).max())):
+        ofail(ctx, "C12:cov_mm:calc_unc:same", "build_hank cov_mm %s: the returned Hankel matrix differs from the calc_unc=False one (shape %s/%s, max deviation %.6g of %.6g)"
+              % (what, Hu.shape, Hp.shape, np.abs(Hu - Hp).max() if Hu.shape == Hp.shape else float("nan"), np.abs(Hp).max()), case)
+    if inst_ok and Hu.shape == ((br + 1) * l, (br + 1) * r):
+        Hdef = independent_vec(method, Y, Yr, br)
+        if not np.allclose(Hu, Hdef, rtol=0, atol=1e-9 * max(1.0, np.abs(Hdef).max())):
+            I, J = np.unravel_index(np.argmax(np.abs(Hu - Hdef)), Hu.shape)
+            ofail(ctx, "C12:cov_mm:calc_unc:def", "build_hank cov_mm %s: entry (%d,%d) is %.9g, the uniform-weight cross-correlation at lag %d is %.9g"
+                  % (what, I, J, Hu[I, J], I // l + J // r + 1, Hdef[I, J]), case)
+        if Y.size <= 600:
+            pending[0].append("showMat (hank_mm_l QcOps %s %d %d %d %d %s %s)" % (qc(Fraction(1, N)), l, r, br, Ndat, qc_mat(Y), qc_mat(Yr)))
+            pending[1].append((method, case0, [(case, Hu, what)], "the same records (uniform weight 1/N)", "calc_unc"))
+
+
 ALL_DTYPES = ["float64", "int8", "int16", "int32", "int64", "uint8", "uint16", "uint32", "uint64"]
 DTYPE_RANGES = [
     # name, lowest value, highest value (the dtypes that hold every value exactly are worked out from the values)
@@ -700,7 +791,9 @@ def dtype_case(ctx, method, V, ref, br, dtypes, pending, inst_ok=True, tag="dtyp
 def dtype_flush(ctx, pending):
     """Coq side of dtype_case: the exact model on the integer values against every presentation."""
     res = ctx.coq_eval(HEADER, pending[0], shard=8)
-    for (method, case0, results), s in zip(pending[1], res):
+    for item, s in zip(pending[1], res):
+        method, case0, results = item[:3]
+        label, ksuf = (item[3], item[4]) if len(item) > 3 else ("the integer values", "dtype")
         if method == "dat":
             a, b = s.split("|")
             P = np.array([[float(x) for x in row] for row in parse_mat(a)])
@@ -718,8 +811,8 @@ def dtype_flush(ctx, pending):
             else:
                 ok = H.shape == M.shape and np.allclose(H, M, rtol=0, atol=1e-9 * max(1.0, np.abs(M).max()))
             if not ok:
-                ctx.fail("correspondence", "build_hank %s, %s: differs from the exact model evaluated on the integer values" % (method, what), case,
-                         key="C12:%s:corr-dtype" % method)
+                ctx.fail("correspondence", "build_hank %s, %s: differs from the exact model evaluated on %s" % (method, what, label), case,
+                         key="C12:%s:corr-%s" % (method, ksuf))
 
 
 def run_corpus(ctx, rng, pending):
@@ -734,7 +827,12 @@ def run_corpus(ctx, rng, pending):
             long_case(ctx, rng, c["method"], c["Ndat"], c["l"], c["r"], c["br"], c["form"], c["data_seed"], extra=c.get("probe_t", ()), tag=tag)
         elif c["kind"] == "glue":
             glue_case(ctx, SSIdat if c["cls"] == "SSIdat" else SSIcov, c["method"], np.array(c["data"], dtype=float), c["ref_ind"], c["br"], tag=tag,
-                      ordmax=c.get("ordmax"))
+                      ordmax=c.get("ordmax"), calc_unc=c.get("calc_unc", False), nb=c.get("nb"))
+        elif c["kind"] == "unc":
+            Y = np.array(c["Y"], dtype=float) if "Y" in c else None
+            if Y is None:
+                Y = long_data(c["data_seed"], c["l"], c["Ndat"])
+            unc_case(ctx, rng, c["l"], c["r"], c["br"], c["Ndat"], c.get("nb"), pending, Y=Y, ref=c["ref"], basis=c.get("basis", True), tag=tag)
         elif c["kind"] == "dtype":
             conv = True if c["method"] == "dat" else convention(ctx, c["method"], c["br"])
             dtype_case(ctx, c["method"], np.array(c["Y"], dtype=np.int64), c["ref"], c["br"], c.get("dtypes", ALL_DTYPES), pending, tag=tag,
@@ -754,7 +852,8 @@ def run(ctx):
                          "reference records (same object / view / fancy copy / independent) with two builds each, records of 32.8k..131k "
                          "samples (definition in O(N) + single product weights by indicator probes), class glue for ref_ind None / all / "
                          "permuted / subsets, ordmax swept to the largest legal order, multi-setup path (PreGER) with n_mov != n_ref observed "
-                         "by wrapping ssi.build_hank; integer-valued records stored as float64/int8..int64/uint8..uint64 (values up to the top of "
+                         "by wrapping ssi.build_hank; the calc_unc=True branch of cov_mm on a (Ndat, br, nb) grid covering N % nb in {0, 1, nb-1}, N < nb, N == nb (impulse basis + "
+                         "exact model), class runs on tables wider than long / square / tall; integer-valued records stored as float64/int8..int64/uint8..uint64 (values up to the top of "
                          "each range) against the exact integer model; every build_hank call is followed by a bit-comparison of its arguments")
     _CONV.clear()
     # ---- corpus first (failing inputs of changes that once slipped through)
@@ -880,6 +979,16 @@ def run(ctx):
         elif abs(ratio * N - 1) > 1e-8:
             ctx.note("dat Gram differs from the model instance by the positive scalar %.6g (normalisation is not pinned by the property)" % (ratio * N))
 
+    # ---- calc_unc=True branch of 'cov_mm': the returned Hankel matrix is the calc_unc=False one (impulse basis + exact model)
+    cache = {}
+    for n, (nb, N) in enumerate(unc_grid(ctx.quick())):
+        for br in ((1, 2) if not ctx.quick() else ((1,) if n % 2 == 0 else (2,))):
+            l, r = [(2, 1), (1, 1), (2, 2)][(n + br) % 3] if N <= 10 else (1, 1)
+            unc_case(ctx, rng, l, r, br, N + 2 * br + 1, nb, pending, cache=cache)
+    for N in ([100, 200, 99, 101, 150] if ctx.quick() else [100, 200, 300, 400, 99, 101, 199, 201, 150, 50, 1000]):  # default nb = 100
+        br = int(rng.integers(1, 3))
+        unc_case(ctx, rng, 2, 1, br, N + 2 * br + 1, None, pending, basis=False)
+
     # ---- storage dtype of the records: integer-valued records as float64 / int8..64 / uint8..64 give the matrix of the exact integer model
     dshp = [(2, [1], 1), (3, [2, 0], 2), (2, "same", 1)] if ctx.quick() else [(1, [0], 1), (2, [1], 1), (3, [2, 0], 2), (2, "same", 1), (3, "same", 2), (4, [3, 0, 1], 3)]
     for (name, lo, hi) in DTYPE_RANGES:
@@ -938,6 +1047,26 @@ def run(ctx):
         for ref in refs:
             for cls, method in ((SSIcov, "cov_mm"), (SSIcov, "cov_R"), (SSIdat, "dat")):
                 glue_case(ctx, cls, method, data, ref, br, inst_ok=inst[method])
+
+    # ---- glue: tables wider than long, square and tall (rows = samples, columns = channels, whatever the proportions), small sizes
+    tables = [(9, 12, 1), (8, 11, 1), (14, 20, 2), (9, 9, 1), (10, 10, 1), (12, 9, 1), (30, 4, 2)] if ctx.quick() else \
+        [(9, 12, 1), (8, 11, 1), (14, 20, 2), (9, 9, 1), (10, 10, 1), (12, 9, 1), (30, 4, 2), (60, 70, 3), (11, 12, 1), (16, 17, 2), (13, 13, 2), (25, 24, 3)]
+    if ctx.quick():
+        tables.append((60, 70, 3) if rng.random() < 0.5 else (int(rng.integers(12, 20)), int(rng.integers(20, 30)), 2))
+    for (ns, nch, br) in tables:
+        data = dyad(rng, (ns, nch))
+        N = ns - 2 * br - 1
+        for cls, method in ((SSIcov, "cov_mm"), (SSIcov, "cov_R"), (SSIdat, "dat")):
+            nrmax = nch if method != "dat" else max(1, min(nch, (N - 1) // (br + 1)))  # 'dat': past reference rows must not outnumber the columns
+            refs = [rng.permutation(nch)[:1].tolist(), rng.permutation(nch)[:min(2, nrmax)].tolist()]
+            if method != "dat" and nch <= 30:
+                refs.append(None)
+            for ref in refs:
+                glue_case(ctx, cls, method, data, ref, br, inst_ok=inst[method], tag="class-glue-table", ordmax=min(2, (br + 1) * (nch if ref is None else len(ref))))
+    # ---- glue: SSIcov with calc_unc=True (N a multiple of nb, and not)
+    for nb in (5, 79, 7):
+        data = dyad(rng, (400, 3))
+        glue_case(ctx, SSIcov, "cov_mm", data, rng.permutation(3)[:2].tolist(), 2, inst_ok=inst["cov_mm"], tag="class-glue-calc_unc", calc_unc=True, nb=nb)
 
     # ---- glue: ordmax swept up to the largest legal order min((br+1)*n_ref, br*n_channels) for proper reference subsets:
     #      result.H keeps br+1 block rows/columns for the br that was passed
